@@ -154,12 +154,8 @@ def r2_seed(ck, F, R="C06-R2"):
     mv = calls(b, A("rc_prefix") + "move_on_next")
     ck.exact(R, "initial move_on_next per source", len(mv), 1, F.config)
     if ps and mv:
-        isome = calls(b, "Option::<T>::is_some")
-        ok = False
-        if isome:
-            ed = bool_edges(b, value_site=isome[0][0])
-            src = b.arg_exprs(isome[0][0])[0]
-            ok = ed is not None and b.dominates(ed[1], ps[0][0].bb) and not b.dominates(ed[2], ps[0][0].bb) and any(x.k == "call" and x.x.get("site") == mv[0][0] for x in src.walk())
+        pe = presence_edges(b, mv[0][0])
+        ok = pe is not None and b.dominates(pe[0], ps[0][0]) and _reached_only_through(b, pe[1], pe[2], ps[0][0].bb)
         ck.ob(R, "pushed-iff-non-empty", ok, "a source is pushed iff its first move_on_next()? returned an entry", b, ps[0][0])
     mi = [(s, rv) for bb, s, rv in aggregates(F, "merger::MergerIter") if bb.path == b.path]
     for s, rv in mi:
@@ -255,6 +251,17 @@ def value_seq(b, vals, m):
                 seq.append(("?", n))
         return seq
     return [("?", v.show()[:50])]
+
+
+def _reached_only_through(b, yes, no, target_bb):
+    """within one loop iteration `target_bb` is reached from the `yes` edge and never from the `no` edge (the `no`
+    edge of `if x.is_none() { continue }` goes back to the loop header, from where the *next* iteration may reach it)"""
+    if b.dominates(yes, target_bb) and not b.dominates(no, target_bb):
+        return True
+    heads = [h for h, blks in b.loops() if target_bb in blks]
+    r_yes = reachable_without(b, banned_blocks=heads, start=yes) | {yes}
+    r_no = reachable_without(b, banned_blocks=heads, start=no) | {no}
+    return target_bb in r_yes and target_bb not in r_no
 
 
 def _is_peek(path):
@@ -434,11 +441,30 @@ def r5_pop_push(ck, F, R="C06-R5"):
         ck.ob(R, "putback-covers-all-popped", ok and okd, "the put-back loop iterates once(first entry).chain(tmp_entries.drain(..)) — every popped entry exactly once", b, mv[0])
         same_item = b.arg_exprs(hp[0])[1].ident() == unwrap_field_base(it)
         ck.ob(R, "pushes-advanced-entry", b.in_loop(hp[0].bb) and b.in_loop(mv[0].bb) and same_item, "the entry pushed back is the one that was just advanced", b, hp[0])
-        isome = [s for s, c, t in calls(b, "Option::<T>::is_some") if b.dominates(mv[0], s)]
-        ok = False
-        if isome:
-            ed = bool_edges(b, value_site=isome[0])
-            ok = ed is not None and b.dominates(ed[1], hp[0].bb) and not b.dominates(ed[2], hp[0].bb)
+        # the put-back loop visits every popped entry: it is left only when its iterator is exhausted (or with an error)
+        lp = [(h, blks) for h, blks in b.loops() if mv[0].bb in blks]
+        okx = len(lp) >= 1
+        bad_exits = []
+        if lp:
+            h, blks = min(lp, key=lambda x: len(x[1]))
+            eo = error_only_blocks(b)
+            nxt = [s_ for s_, c_, t_ in b.calls() if s_.bb in blks and callee_name(c_).endswith("::next") and any(x.k == "call" and x.x["path"].endswith("Iterator::chain") for x in b.arg_exprs(s_)[0].walk())]
+            none_t = set()
+            for s_ in nxt:
+                pe_ = presence_edges(b, s_)
+                if pe_:
+                    none_t.add(pe_[2])
+            for bb_ in sorted(blks):
+                for sx in b.succs(bb_):
+                    if sx in blks or sx in eo or sx in none_t:
+                        continue
+                    if diverges(b, sx):
+                        continue
+                    bad_exits.append(b.loc(Site(bb_, None)))
+            okx = bool(nxt) and not bad_exits
+        ck.ob(R, "putback-loop-has-no-early-exit", okx, "the put-back loop ends only when every popped entry was visited (exits: iterator exhausted, or an error)" + (f" — early exit at {bad_exits}" if bad_exits else ""), b, mv[0])
+        pe = presence_edges(b, mv[0])
+        ok = pe is not None and b.dominates(pe[0], hp[0]) and _reached_only_through(b, pe[1], pe[2], hp[0].bb)
         ck.ob(R, "pushed-iff-not-exhausted", ok, "pushed back iff move_on_next() returned an entry", b, hp[0])
         from .errflow import propagated
         ck.ob(R, "advance-error-propagated", propagated(F, b, mv[0]), "an error while advancing a source is returned (the source is not silently dropped)", b, mv[0])
